@@ -32,6 +32,8 @@ package verifharness
 //                                                  transfer/channel-0) through the app's transfer route = aggregate middleware
 //                                                  over the real transfer application, on a cache context written iff the
 //                                                  acknowledgement is nil or a success (ibc-go core RecvPacket); <voucher> is checked
+//   restart                                     -> ok          the module goes through a genesis export / import: real ExportGenesis ->
+//                                                  JSON -> Validate -> the aggregate store is wiped -> real InitGenesis (bank, EVM, accounts stay)
 //   dump                                        -> E<0|1> T<contract>:<code>:<totalSupply>:<balances>:<pair> ... D<denom>:<supply>:<balances>:<pair addr>
 
 import (
@@ -60,6 +62,7 @@ import (
 	"github.com/tharsis/ethermint/x/evm/statedb"
 
 	"github.com/teleport-network/teleport/app"
+	"github.com/teleport-network/teleport/x/aggregate"
 	cmdcfg "github.com/teleport-network/teleport/cmd/config"
 	erc20contracts "github.com/teleport-network/teleport/syscontracts/erc20"
 	aggtypes "github.com/teleport-network/teleport/x/aggregate/types"
@@ -100,6 +103,10 @@ type c11World struct {
 	cur       *c11Snap // snapshot of the current state (nil = stale)
 	extra     string   // a denomination observed by the oracle although it is not part of the dumps
 	extraAcct [][]byte // accounts observed by the oracle although they are not tracked (named in the message; the empty address)
+	// the oracle's OWN record of what governance switched off (independent of the flags the keeper stores)
+	govOff       map[common.Address]bool // contract of the pair -> last committed ToggleRelay left it off
+	govModuleOff bool                    // last committed EnableAggregate change was "off"
+	offRestarts  map[common.Address]int  // restarts since the pair was switched off
 	mw        porttypes.IBCModule // the app's ICS-20 route: aggregate middleware over the real transfer application
 	seq       uint64
 }
@@ -168,6 +175,7 @@ func (w *c11World) reset() {
 	w.accts, w.denoms, w.contracts = nil, nil, nil
 	w.kinds = map[common.Address]string{}
 	w.hist = nil
+	w.govOff, w.offRestarts, w.govModuleOff = map[common.Address]bool{}, map[common.Address]int{}, false
 }
 
 func (w *c11World) seeDenom(d string) {
@@ -433,6 +441,15 @@ func (w *c11World) oracleMsg(r *Rec, m c11Msg, out string, s0, s1 *c11Snap, p c1
 		kind = "ce"
 	}
 	// gated: disabled module / disabled pair / blocked receiver => rejected
+	if (out == "ok" || out == "clean") && p.found && w.govOff[p.addr] {
+		w.find(r, "C11:converted-on-disabled-pair:"+kind, "a conversion was accepted for a pair whose last committed relay toggle was OFF (the oracle's own record)", out, "rejected")
+	}
+	if (out == "ok" || out == "clean") && w.govModuleOff {
+		w.find(r, "C11:converted-while-module-disabled:"+kind, "a conversion was accepted although the last committed EnableAggregate change was OFF (the oracle's own record)", out, "rejected")
+	}
+	if p.found && w.govOff[p.addr] && out != "ok" && out != "clean" && out != "err basic" && w.offRestarts[p.addr] > 0 {
+		r.Count("convert.after-restart.refused-disabled")
+	}
 	if out == "ok" || out == "clean" {
 		switch {
 		case !s0.enabled:
@@ -842,10 +859,17 @@ func (w *c11World) apply(r *Rec, op string) string {
 		p := K.GetParams(w.ctx)
 		p.EnableAggregate = f[1] == "1"
 		K.SetParams(w.ctx, p)
+		w.govModuleOff = f[1] != "1"
 		return "ok"
 	case "toggle":
-		_, _ = K.ToggleRelay(w.ctx, str(f[1]))
+		if tp, err := K.ToggleRelay(w.ctx, str(f[1])); err == nil {
+			c := tp.GetERC20Contract()
+			w.govOff[c] = !w.govOff[c]
+			w.offRestarts[c] = 0
+		}
 		return "ok"
+	case "restart":
+		return w.restart(r)
 	case "sendenabled":
 		p := w.app.BankKeeper.GetParams(w.ctx)
 		p = p.SetSendEnabledParam(str(f[1]), f[2] == "1")
@@ -932,4 +956,53 @@ func (w *c11World) apply(r *Rec, op string) string {
 	}
 	r.t.Fatalf("bad op %q", op)
 	return ""
+}
+
+// restart: the aggregate module's state goes through its genesis (what survives a node restart from an exported
+// genesis): ExportGenesis -> JSON -> Validate -> wipe the module's store -> InitGenesis.
+func (w *c11World) restart(r *Rec) string {
+	K := w.app.AggregateKeeper
+	cctx, write := w.ctx.CacheContext()
+	var verr error
+	pan, msg := safely(func() {
+		gs := aggregate.ExportGenesis(cctx, *K)
+		bz := w.app.AppCodec().MustMarshalJSON(gs)
+		var in aggtypes.GenesisState
+		w.app.AppCodec().MustUnmarshalJSON(bz, &in)
+		if verr = in.Validate(); verr != nil {
+			return
+		}
+		store := cctx.KVStore(w.app.GetKey(aggtypes.StoreKey))
+		var keys [][]byte
+		it := store.Iterator(nil, nil)
+		for ; it.Valid(); it.Next() {
+			keys = append(keys, append([]byte{}, it.Key()...))
+		}
+		it.Close()
+		for _, k := range keys {
+			store.Delete(k)
+		}
+		aggregate.InitGenesis(cctx, *K, w.app.AccountKeeper, in)
+	})
+	if pan || verr != nil {
+		r.Find(Finding{Sig: "C11:restart:genesis-round-trip-failed", What: "the exported aggregate genesis cannot be imported: " + msg + fmt.Sprint(verr),
+			Ops: append([]string{}, w.hist...), Obs: "failed", Req: "export / validate / import succeed"})
+		return "err"
+	}
+	write()
+	r.Count("restart")
+	withOff := false
+	for c, off := range w.govOff {
+		if off && w.pairOf(w.ctx, c).found {
+			withOff = true
+			w.offRestarts[c]++
+		}
+	}
+	if withOff {
+		r.Count("restart.with-disabled-pair")
+	}
+	if w.govModuleOff {
+		r.Count("restart.with-disabled-module")
+	}
+	return "ok"
 }
